@@ -46,6 +46,8 @@ CHECKS = {
             "Held on the executions observed: early-completion configs x nesting depth x survivor position x next operation kind, plus the forced check-then-put order."),
     "C16": ("exploration", "2 C16", "runtime monitoring: payload sizes in encoded bytes, ReplayChildren flag, updates and function entries during replay, rebuilt value equality, response-limit handling",
             "Held on the executions observed apart from the listed known finding: sizes around both limits x context kinds x summary configs x replays and crash points."),
+    "C07": ("exploration", "2 C07", "runtime monitoring: wake sources and active user functions at every PENDING outcome; bounded-progress rules (invocation bound, stuck-PENDING, logical hang rule, spin rule)",
+            "Held on the executions observed: suspending operations at top level and in nested map/parallel, timer/event delivery orders, livelock hunt with due-now suspensions under yield injection; unbounded liveness is restated as bounded progress."),
 }
 
 NOT_YET = "check under construction in this session (machinery not yet registered)"
